@@ -853,5 +853,5 @@ func classify(c *vt.C, tr *trace) {
 }
 
 func TestRetryPolicy(t *testing.T) {
-	vt.Run(t, cR, vt.N(9600, 400000), gen, run)
+	vt.Run(t, cR, vt.N(6400, 400000), gen, run)
 }
